@@ -54,11 +54,13 @@ func runC19(p *core.Program, r *core.Report) {
 	r.NotDecided = []string{"agreement with the standard library for each instant (numeric)", "weekday names", "pattern round trip beyond per-letter width agreement"}
 	r.Rule("C19.tables", "month lengths, Gregorian leap rule (400 residues), base instant, weekday start, MILLIS_PER_* values, leap correction wherever month lengths are used", 7)
 	r.Rule("C19.units", "unit functions are (t-BASE)/STEP with the STEP their name states", 5)
+	r.Rule("C19.wrappers", "the exported package functions hand the instant they were given to the helper unchanged (or the current clock reading)", 10)
 	r.Rule("C19.fields", "every formatted field fits the fixed width it is padded to (interval analysis of the decomposition)", 6)
 	r.Rule("C19.layouts", "standard-library layouts used by the calendar helpers are 24-hour (no 03/3 hour token without an AM/PM marker)", 0)
 	r.Rule("C19.format-parse", "DateFormat.format and Parse: same letters, same widths, separators one rune on both sides", 8)
 	c19Tables(p, r)
 	c19Units(p, r)
+	c19Wrappers(p, r)
 	c19Fields(p, r)
 	c19Pad(p, r)
 	c19Layouts(p, r)
@@ -136,39 +138,81 @@ func c19Tables(p *core.Program, r *core.Report) {
 		r.Undec("C19.tables", "util/dateutil.isYun", "-", "not found")
 	}
 	// base instant and weekday start
-	if fi := p.Func("util/dateutil", "newDateTimeHelper"); fi != nil {
+	{
+		// every time.Date(...) the package evaluates (the constructor or a helper it delegates to) is the base instant
 		n, okb := 0, true
-		ast.Inspect(fi.Decl.Body, func(m ast.Node) bool {
-			if call, ok := m.(*ast.CallExpr); ok && stripSpaces(types.ExprString(call.Fun)) == "time.Date" && len(call.Args) == 8 {
-				n++
-				args := ""
-				for _, a := range call.Args[:7] {
-					args += stripSpaces(types.ExprString(a)) + ","
-				}
-				if args != "2000,time.January,1,0,0,0,0," {
-					okb = false
-				}
+		var at string
+		want := []int64{2000, 1, 1, 0, 0, 0, 0}
+		for _, fi := range p.Funcs {
+			if fi.Pkg != pk || fi.Decl.Body == nil || core.IsCanaryFile(p.Fset.Position(fi.Decl.Pos()).Filename) {
+				continue
 			}
-			return true
-		})
-		r.Check(n >= 1 && okb, "C19.tables", "util/dateutil.newDateTimeHelper base instant", p.Pos(fi.Decl.Pos()), "2000-01-01 00:00:00.000", "the base instant is not 2000-01-01 00:00:00")
+			finfo := fi.Pkg.TypesInfo
+			ast.Inspect(fi.Decl.Body, func(m ast.Node) bool {
+				call, ok := m.(*ast.CallExpr)
+				if !ok || len(call.Args) != 8 || !isCallTo(finfo, call, "time", "Date") {
+					return true
+				}
+				allConst := true
+				for _, a := range call.Args[:7] {
+					if _, ok := constIntOf(finfo, a); !ok {
+						allConst = false // a date assembled from parsed fields (DateFormat.Parse), not the base instant
+					}
+				}
+				if !allConst {
+					return true
+				}
+				n++
+				at = p.Pos(call.Pos())
+				for i, a := range call.Args[:7] {
+					if v, ok := constIntOf(finfo, a); !ok || v != want[i] {
+						okb = false
+					}
+				}
+				return true
+			})
+		}
+		r.Check(n >= 1 && okb, "C19.tables", "util/dateutil.newDateTimeHelper base instant", at, "2000-01-01 00:00:00.000", "the base instant is not 2000-01-01 00:00:00")
 	}
 	if fi := p.Method("util/dateutil", "DateTimeHelper", "open"); fi != nil {
 		wd := lit("wday")
 		start := int64(-1)
+		finfo := fi.Pkg.TypesInfo
+		// the local that indexes the weekday table, and the constant it starts from
+		var idxObj types.Object
 		ast.Inspect(fi.Decl.Body, func(m ast.Node) bool {
-			if as, ok := m.(*ast.AssignStmt); ok && len(as.Lhs) == 1 && types.ExprString(as.Lhs[0]) == "wdayIdx" && as.Tok == token.DEFINE {
-				start, _ = constIntOf(fi.Pkg.TypesInfo, as.Rhs[0])
+			if ix, ok := m.(*ast.IndexExpr); ok {
+				if id, ok := ast.Unparen(ix.X).(*ast.Ident); ok && id.Name == "wday" {
+					if o := finfo.ObjectOf(id); o != nil && o.Parent() == o.Pkg().Scope() {
+						if iid, ok := ast.Unparen(ix.Index).(*ast.Ident); ok {
+							idxObj = finfo.ObjectOf(iid)
+						}
+					}
+				}
+			}
+			return true
+		})
+		ast.Inspect(fi.Decl.Body, func(m ast.Node) bool {
+			if as, ok := m.(*ast.AssignStmt); ok && len(as.Lhs) == 1 && as.Tok == token.DEFINE && idxObj != nil {
+				if id, ok := as.Lhs[0].(*ast.Ident); ok && finfo.ObjectOf(id) == idxObj {
+					start, _ = constIntOf(finfo, as.Rhs[0])
+				}
 			}
 			return true
 		})
 		r.Check(start >= 0 && int(start) < len(wd) && wd[start] == "Sat" && len(wd) == 7, "C19.tables", "util/dateutil.open weekday start", p.Pos(fi.Decl.Pos()), "2000-01-01 is a Saturday", fmt.Sprintf("weekday enumeration starts at index %d of %v, which is not Saturday", start, wd))
 		step := false
+		dayMs := func(e ast.Expr) bool { v, ok := constIntOf(finfo, e); return ok && v == 86400000 }
 		ast.Inspect(fi.Decl.Body, func(m ast.Node) bool {
-			if as, ok := m.(*ast.AssignStmt); ok && len(as.Lhs) == 1 && len(as.Rhs) == 1 && types.ExprString(as.Lhs[0]) == "mtime" {
-				rs := stripSpaces(types.ExprString(as.Rhs[0]))
-				if (as.Tok == token.ADD_ASSIGN && rs == "MILLIS_PER_DAY") || (as.Tok == token.ASSIGN && rs == "mtime+MILLIS_PER_DAY") {
+			if as, ok := m.(*ast.AssignStmt); ok && len(as.Lhs) == 1 && len(as.Rhs) == 1 {
+				if as.Tok == token.ADD_ASSIGN && dayMs(as.Rhs[0]) {
 					step = true
+				}
+				if be, ok := ast.Unparen(as.Rhs[0]).(*ast.BinaryExpr); ok && as.Tok == token.ASSIGN && be.Op == token.ADD {
+					l := types.ExprString(as.Lhs[0])
+					if (types.ExprString(be.X) == l && dayMs(be.Y)) || (types.ExprString(be.Y) == l && dayMs(be.X)) {
+						step = true
+					}
 				}
 			}
 			return true
@@ -494,7 +538,17 @@ func c19FormatParse(p *core.Program, r *core.Report) {
 		var loop *ast.RangeStmt
 		ast.Inspect(fi.Decl.Body, func(n ast.Node) bool {
 			if rs, ok := n.(*ast.RangeStmt); ok && loop == nil && rs.Value != nil {
-				loop = rs
+				// the pattern is text: a string, or a slice of runes/bytes (not a table of fields)
+				switch xt := info.TypeOf(rs.X).Underlying().(type) {
+				case *types.Basic:
+					if xt.Info()&types.IsString != 0 {
+						loop = rs
+					}
+				case *types.Slice:
+					if b, ok := xt.Elem().Underlying().(*types.Basic); ok && b.Info()&types.IsInteger != 0 {
+						loop = rs
+					}
+				}
 			}
 			return true
 		})
@@ -527,15 +581,93 @@ func c19FormatParse(p *core.Program, r *core.Report) {
 		walkLetter := func(val int64) (w int64, unit string) {
 			w = -1
 			ints := map[types.Object]int64{chObj: val}
+			sels := map[string]int64{}
+			bools := map[string]bool{}
 			tryInt := func(e ast.Expr) (int64, bool) {
-				ev := &ordEval{info: info, side: func(ast.Expr) (string, string) { return "", "" }, ints: ints, bools: map[string]bool{}, callee: callee}
+				ev := &ordEval{info: info, side: func(ast.Expr) (string, string) { return "", "" }, ints: ints, bools: bools, sels: sels, callee: callee}
 				n := ev.evalInt(e)
 				return n, ev.err == ""
 			}
 			tryBool := func(e ast.Expr) (bool, bool) {
-				ev := &ordEval{info: info, side: func(ast.Expr) (string, string) { return "", "" }, ints: ints, bools: map[string]bool{}, callee: callee}
+				ev := &ordEval{info: info, side: func(ast.Expr) (string, string) { return "", "" }, ints: ints, bools: bools, sels: sels, callee: callee}
 				b := ev.evalBool(e)
 				return b, ev.err == ""
+			}
+			// f, ok := table[ch] / f := table[ch] with table a package-level map or array literal keyed by
+			// constants: membership and the constant fields of the entry are known once the letter is
+			tableLookup := func(as *ast.AssignStmt) bool {
+				if len(as.Rhs) != 1 || len(as.Lhs) < 1 || len(as.Lhs) > 2 {
+					return false
+				}
+				ix, ok := ast.Unparen(as.Rhs[0]).(*ast.IndexExpr)
+				if !ok {
+					return false
+				}
+				tid, ok := ast.Unparen(ix.X).(*ast.Ident)
+				if !ok {
+					return false
+				}
+				tv, _ := info.ObjectOf(tid).(*types.Var)
+				if tv == nil || tv.Parent() != tv.Pkg().Scope() {
+					return false
+				}
+				key, ok := tryInt(ix.Index)
+				if !ok {
+					return false
+				}
+				se := &strEval{p: p, info: info}
+				lit, linfo := se.pkgVarInit(tv)
+				if lit == nil {
+					return false
+				}
+				var entry ast.Expr
+				for pos, el := range lit.Elts {
+					k := int64(pos)
+					val := el
+					if kv, ok := el.(*ast.KeyValueExpr); ok {
+						kk, ok := constIntOf(linfo, kv.Key)
+						if !ok {
+							return false
+						}
+						k, val = kk, kv.Value
+					}
+					if k == key {
+						entry = val
+					}
+				}
+				if len(as.Lhs) == 2 {
+					if id, ok := as.Lhs[1].(*ast.Ident); ok && id.Name != "_" {
+						bools[id.Name] = entry != nil
+					}
+				}
+				id0, ok := as.Lhs[0].(*ast.Ident)
+				if !ok || entry == nil {
+					return true
+				}
+				if v, ok := constIntOf(linfo, entry); ok {
+					if obj := info.ObjectOf(id0); obj != nil {
+						ints[obj] = v
+					}
+					return true
+				}
+				if cl, ok := ast.Unparen(entry).(*ast.CompositeLit); ok {
+					if st, ok := linfo.TypeOf(cl).Underlying().(*types.Struct); ok {
+						for i, fe := range cl.Elts {
+							name, val := "", fe
+							if kv, ok := fe.(*ast.KeyValueExpr); ok {
+								if kid, ok := kv.Key.(*ast.Ident); ok {
+									name, val = kid.Name, kv.Value
+								}
+							} else if i < st.NumFields() {
+								name = st.Field(i).Name()
+							}
+							if v, ok := constIntOf(linfo, val); ok && name != "" {
+								sels[id0.Name+"."+name] = v
+							}
+						}
+					}
+				}
+				return true
 			}
 			var scanCalls func(n ast.Node)
 			scanCalls = func(n ast.Node) {
@@ -637,6 +769,9 @@ func c19FormatParse(p *core.Program, r *core.Report) {
 						}
 					case *ast.AssignStmt:
 						scanCalls(v)
+						if tableLookup(v) {
+							continue
+						}
 						if len(v.Lhs) == len(v.Rhs) {
 							for i, l := range v.Lhs {
 								if id, ok := l.(*ast.Ident); ok {
@@ -811,4 +946,63 @@ func hasLoneHour3(l string) bool {
 		}
 	}
 	return false
+}
+
+// c19Wrappers: util/dateutil's exported functions are thin wrappers over the per-zone helper. What
+// the helper computes is decided by the other rules for the instant it is GIVEN; this rule decides
+// that the wrapper gives it the caller's instant: every int64 argument of a DateTimeHelper method
+// called from a package function is that function's own parameter or a clock reading.
+func c19Wrappers(p *core.Program, r *core.Report) {
+	pk := p.Pkg("util/dateutil")
+	if pk == nil {
+		return
+	}
+	for _, fi := range p.Funcs {
+		if fi.Pkg != pk || fi.Decl.Body == nil || fi.Decl.Recv != nil || !fi.Obj.Exported() {
+			continue
+		}
+		info := fi.Pkg.TypesInfo
+		n := 0
+		var probs []string
+		ast.Inspect(fi.Decl.Body, func(m ast.Node) bool {
+			call, ok := m.(*ast.CallExpr)
+			if !ok {
+				return true
+			}
+			sel, ok := call.Fun.(*ast.SelectorExpr)
+			if !ok {
+				return true
+			}
+			fn, _ := info.Uses[sel.Sel].(*types.Func)
+			if fn == nil {
+				return true
+			}
+			rn := core.RecvNamed(fn)
+			if rn == nil || rn.Obj().Name() != "DateTimeHelper" {
+				return true
+			}
+			for _, a := range call.Args {
+				b, ok := info.TypeOf(a).Underlying().(*types.Basic)
+				if !ok || b.Kind() != types.Int64 {
+					continue
+				}
+				n++
+				e := ast.Unparen(stripConvs(info, expandLocals(info, fi.Decl.Body, a)))
+				if isParamIdent(info, fi, e) {
+					continue
+				}
+				if c, ok := e.(*ast.CallExpr); ok && isClockCall(info, c) && len(c.Args) == 0 {
+					continue
+				}
+				if tv, ok := info.Types[e]; ok && tv.Value != nil {
+					continue
+				}
+				probs = append(probs, fmt.Sprintf("%s: %s is given `%s`, not the caller's instant", p.Pos(call.Pos()), fn.Name(), types.ExprString(a)))
+			}
+			return true
+		})
+		if n > 0 {
+			fileProbs(r, "C19.wrappers", core.FuncName(fi.Obj), p.Pos(fi.Decl.Pos()), probs, "the instant is passed through unchanged")
+		}
+	}
 }
